@@ -68,7 +68,7 @@ def check_C01():
 
 def check_C12():
     ctx = Ctx("C12"); cov = {}
-    broken = proof_part(ctx, "props/C12.v", ["proofs/C12_twins.v"], cov)
+    broken = proof_part(ctx, "props/C12.v", ["proofs/C12_twins.v", "proofs/C12_maps.v", "proofs/C11_table.v", "proofs/C11_lists.v"], cov)
     td = corr_cache.twin_diff(ctx, N(ctx, 1000, 20000))
     cov["twin_differential_cases"] = td["n"]
     cov["twin_differential_disagreements"] = len(td.get("diffs", []))
@@ -87,7 +87,21 @@ def check_C12():
             ctx.violation("corr-%d" % m["case"], dict(broken=["CORR-cache-seq"], failing_op=m["op"], observed=m["impl"], model=m["model"],
                           case=corr_cache.case_text(res["cases"][m["case"]])), failing_input=False,
                           what="one twin's model no longer describes its Go file")
-    cov["rule"] = "same generated histories on both twins, outputs compared line by line (visit order of exhaustive traversals compared as sets); plus each model against its own Go file"
+    # map level: Map vs MapOf[string, interface{}] directly, and both against the table model
+    from . import tabseq
+    d, exes, glog = ctx.go_seq()
+    if exes.get("veriftab"):
+        diffs, tcases = tabseq.twin_diff(exes["veriftab"], ctx.seed, N(ctx, 60, 800))
+        cov["map_twin_differential_cases"] = len(tcases)
+        cov["map_twin_differential_disagreements"] = len(diffs)
+        for dd in diffs[:3]:
+            ctx.violation("maptwin-%d" % dd["case"],
+                          dict(check="Map vs MapOf[string,interface{}] on the same calls", failing_op=dd["op"],
+                               observed=dict(map=dd["map"], mapof=dd["mapof"]),
+                               case=(tcases[dd["case"]][0] + tcases[dd["case"]][1] + ["END"]) if dd["case"] >= 0 else []),
+                          failing_input=True, what="the map twins answer differently")
+    table_part(ctx, "C12", cov, N(ctx, 60, 600), [])
+    cov["rule"] = "same generated histories on both twins (cache level and map level), outputs compared line by line (visit order of exhaustive traversals compared as sets); plus each model against its own Go file"
     return ctx.finish(cov, ["map-level twins (Map vs MapOf) are covered by C11's refinement of both to SpecMap"])
 
 def law_part(ctx, pid, cov, res):
@@ -145,16 +159,18 @@ def check_C06():
 
 def check_C07():
     ctx = Ctx("C07"); cov = {}
-    broken = proof_part(ctx, "props/C07.v", ["proofs/C07_range.v", "proofs/C01_ops.v", "proofs/SpecExec_sound.v"], cov)
+    broken = proof_part(ctx, "props/C07.v", ["proofs/C07_range.v", "proofs/C01_ops.v", "proofs/SpecExec_sound.v", "proofs/C11_table.v", "proofs/C11_lists.v"], cov)
     cache_seq_part(ctx, "C07", cov, N(ctx, 1200, 20000), broken)
+    table_part(ctx, "C07", cov, N(ctx, 60, 600), [])
     cov["rule"] = "every Range/Items answer of the implementation is tested by range_okb (no duplicate, only live current pairs, stops exactly when told, otherwise complete) and compared with the model visiting in the same order"
     return ctx.finish(cov, ["cache level, sequential, non-mutating visitors from the named family"])
 
 def check_C08():
     ctx = Ctx("C08"); cov = {}
-    broken = proof_part(ctx, "props/C08.v", ["proofs/C08_cache.v", "proofs/C06_hist.v", "proofs/C06_seq.v"], cov)
+    broken = proof_part(ctx, "props/C08.v", ["proofs/C08_cache.v", "proofs/C06_hist.v", "proofs/C06_seq.v", "proofs/C11_table.v", "proofs/C11_lists.v"], cov)
     res = cache_seq_part(ctx, "C08", cov, N(ctx, 1200, 20000), broken, dense=True)
     law_part(ctx, "C08", cov, res)
+    table_part(ctx, "C08", cov, N(ctx, 60, 600), [])
     cov["rule"] = "dense cases: Count compared with the physical snapshot taken just before it, with the live entries right after DeleteExpired, with 0 right after Clear, and with the model"
     return ctx.finish(cov, ["cache level, sequential"])
 
